@@ -456,3 +456,141 @@ func checkReverseSeekCorrected(c *Ctx, rule string) {
 	}
 	c.Floor(rule, "seek-then-walk-backwards sites", n, 1)
 }
+
+// checkSeekHeightNonNegative: block records are keyed by uint32(height); the forward/seeking block iterators
+// convert the int32 height they are given. A negative height (mempool = -1, or "sync height minus a
+// confirmation window" on a short chain) wraps to a key above every block and the scan visits nothing. Every
+// height handed to a seeking block iterator must therefore be non-negative on the path it arrives by: a
+// non-negative constant, or a value tested `>= 0` (the `< 0` branch re-assigns it) before the call.
+func checkSeekHeightNonNegative(c *Ctx, rule string) {
+	p := c.P
+	n := 0
+	for _, fn := range p.FuncsIn("wtxmgr") {
+		for _, ci := range callsOf(fn) {
+			call, ok := ci.(*ssa.Call)
+			if !ok {
+				continue
+			}
+			name := calleeShort(&call.Call)
+			if name != "makeBlockIterator" && name != "makeReadBlockIterator" {
+				continue
+			}
+			if len(call.Call.Args) < 2 {
+				continue
+			}
+			n++
+			arg := stripConv(call.Call.Args[1])
+			// nonNegAt: v >= 0 is known in block b (dominating facts), or on the edge b -> to
+			nonNegAt := func(v ssa.Value, b, to *ssa.BasicBlock) bool {
+				v = stripConv(v)
+				if k, ok := constInt(v); ok {
+					return k >= 0
+				}
+				want := p.linearize(v, 0).scale(-1)
+				want.Konst--
+				ws := CmpForm{"<", want}.String()
+				for _, f := range p.guardForms(b) {
+					if f == ws {
+						return true
+					}
+				}
+				if to != nil && len(b.Instrs) > 0 {
+					if iff, ok := b.Instrs[len(b.Instrs)-1].(*ssa.If); ok && b.Succs[0] != b.Succs[1] {
+						for si, s := range b.Succs {
+							if s == to {
+								if f, ok := p.cmpForm(iff.Cond, si == 0); ok && f.String() == ws {
+									return true
+								}
+							}
+						}
+					}
+				}
+				return false
+			}
+			ok2 := true
+			if ph, isPhi := arg.(*ssa.Phi); isPhi {
+				for i, e := range ph.Edges {
+					if !nonNegAt(e, ph.Block().Preds[i], ph.Block()) {
+						ok2 = false
+					}
+				}
+			} else {
+				ok2 = nonNegAt(arg, call.Block(), nil)
+			}
+			c.Check(rule, "seek-height-non-negative:"+fnName(fn), call.Pos(), ok2,
+				"a height that can be negative is handed to a seeking block iterator in "+fnName(fn)+": converted to uint32 it lies above every block record, so the scan starts past the end and visits nothing (e.g. the confirmation/maturity correction is skipped on a chain shorter than the window)")
+		}
+	}
+	c.Floor(rule, "seeking block iterator constructions", n, 2)
+}
+
+// checkElementIndexFromOwnLoop: the store's per-input records (debits) are keyed by (tx hash, INPUT index) and
+// its per-output records (credits, unspent entries) by (tx hash, OUTPUT index). Where such an index argument
+// is a range-loop induction variable, the loop must be the one over that transaction's inputs resp. outputs —
+// not an enclosing loop (e.g. over the block's transactions) whose variable happens to have the same name.
+func checkElementIndexFromOwnLoop(c *Ctx, rule string, fnNames []string) {
+	_ = c.P
+	n := 0
+	for _, fnn := range fnNames {
+		fn := wtxFn(c, rule, fnn)
+		if fn == nil {
+			continue
+		}
+		loops := loopsOf(fn)
+		induction := func(v ssa.Value) *Loop {
+			v = stripConv(v)
+			var ph *ssa.Phi
+			switch x := v.(type) {
+			case *ssa.Phi:
+				ph = x
+			case *ssa.BinOp:
+				if x.Op == token.ADD {
+					ph, _ = x.X.(*ssa.Phi)
+				}
+			}
+			if ph == nil {
+				return nil
+			}
+			for _, l := range loops {
+				if l.Header == ph.Block() && l.Kind != "for" {
+					return l
+				}
+			}
+			return nil
+		}
+		for _, ci := range callsOf(fn) {
+			call, ok := ci.(*ssa.Call)
+			if !ok {
+				continue
+			}
+			g := call.Call.StaticCallee()
+			if g == nil || g.Pkg != fn.Pkg {
+				continue
+			}
+			want := ""
+			switch {
+			case strings.Contains(g.Name(), "Debit"):
+				want = "TxIn"
+			case strings.Contains(g.Name(), "Credit") || strings.Contains(g.Name(), "Unspent"):
+				want = "TxOut"
+			}
+			if want == "" {
+				continue
+			}
+			for pi, prm := range g.Params {
+				if prm.Name() != "index" || pi >= len(call.Call.Args) {
+					continue
+				}
+				l := induction(call.Call.Args[pi])
+				if l == nil {
+					continue // a stored index (field) or a parameter: not an induction variable
+				}
+				n++
+				got := l.elemTypeName()
+				c.Check(rule, fmt.Sprintf("%s-index-from-%s-loop:%s", g.Name(), want, fnn), call.Pos(), got == want,
+					fmt.Sprintf("%s passes %s the induction variable of a loop over %q (%s) as the %s index: records of the wrong index are read or written (e.g. a rolled-back spender's debit is not found, so the credit it spent stays spent)", fnn, g.Name(), got, l.Over, map[string]string{"TxIn": "input", "TxOut": "output"}[want]))
+			}
+		}
+	}
+	c.Floor(rule, "per-element index arguments taken from a loop variable", n, 3)
+}
